@@ -88,6 +88,14 @@ CHECKS["C06"] = dict(
    note="Trusted: Lean kernel, Model/Translate.lean (tied by real KeyGen/Sign runs with scripted synchroniser and backend), harness. Assumed: agreed list from C07, authenticated sources from C16.",
    technique="Lean 4 proof over arbitrary finite maps + differential correspondence through the real session set-up paths")
 
+CHECKS["C12"] = dict(
+   text="Lean 4 theorems over the handler tables as a transition system with one action per lock acquisition: for every interleaving of a session's caller and callback threads (late callbacks included) the tables hold nothing under its keys afterwards (sign_no_residue, dkg_no_residue), "
+        "re-admission, refusal of a duplicate session without any change, inertness of late traffic, and non-interference: any global interleaving of any number of sessions on disjoint keys projects onto each signing session's own run (noninterference, by a simulation argument). "
+        "Tie: the real Scheme driven along every exit path with a gated synchroniser, table snapshots compared at every stable point. The constructed topic pair with colliding derived keys is a kernel-checked witness and known finding KF-C12-derived-topic.",
+   design="4/C12",
+   note="Trusted: Lean kernel, Model/Orch.lean (tied through the table snapshot hook), harness. Assumed: SHA-256 collision freedom for derived keys; silent-mode buffer residue noted as an observation. The fix of F09 itself was corrected once by this check (a refused Sign removed the running session's handlers).",
+   technique="Lean 4 proof over a table transition system (case analysis of all thread interleavings + simulation for non-interference) + differential correspondence on the real orchestrator")
+
 NOT_YET = {}
 
 def main():
